@@ -278,8 +278,14 @@ pub fn mutate(rng: &mut Rng, src: &[u8], other: Option<&[u8]>) -> Vec<u8> {
     let n = b.len();
     // (under the Miri interpreter the kinds that make a message much larger are left out: a single
     // check of a 4096-attribute message takes longer there than the whole layer is given)
-    let kinds = if cfg!(miri) { 16 } else { 22 };
+    let kinds = if cfg!(miri) { 16 } else { 23 };
     match rng.below(kinds) {
+        22 if n >= 28 && b[n - 8..n - 4] == [0x80, 0x28, 0x00, 0x04] && n - 28 <= 0xffff => {
+            // the trailing FINGERPRINT taken off (length fixed): whatever was in front of it is now
+            // the end of the message (a nested message's own sealing attributes, for instance)
+            b.truncate(n - 8);
+            set_len(&mut b, n - 28);
+        }
         21 if n >= 28 && b[n - 8..n - 4] == [0x80, 0x28, 0x00, 0x04] => {
             // the FINGERPRINT value replaced by what an almost-right implementation computes: the
             // CRC without the XOR, byte-swapped, complemented, over a prefix whose length field does
@@ -664,8 +670,16 @@ pub fn gen_realistic_message(rng: &mut Rng, variant: u32) -> (Vec<u8>, RefCreds)
         1 => {
             // the same in the other order, with the draft code point as well
             let a = addr(rng, v6);
-            tlvs.push(Tlv::new(0x0020, enc(Kind::XorMappedAddress, RefVal::Addr(a.clone()), &tid)));
-            tlvs.push(Tlv::new(0x8020, enc(Kind::XorMappedAddress, RefVal::Addr(a.clone()), &tid)));
+            // (the draft code point in front of, behind, or instead of the registered one, naming the
+            // same or another address)
+            let other = addr(rng, v6);
+            let legacy = Tlv::new(0x8020, enc(Kind::XorMappedAddress, RefVal::Addr(if rng.chance(1, 2) { a.clone() } else { other }), &tid));
+            let registered = Tlv::new(0x0020, enc(Kind::XorMappedAddress, RefVal::Addr(a.clone()), &tid));
+            match rng.below(3) {
+                0 => tlvs.extend([registered, legacy]),
+                1 => tlvs.extend([legacy, registered]),
+                _ => tlvs.push(legacy),
+            }
             tlvs.push(Tlv::new(0x0001, enc(Kind::AlternateServer, RefVal::Addr(a), &tid)));
             (2, 1, vec![])
         }
